@@ -256,7 +256,7 @@ def main(argv=None):
         seen_b = set()
         for v in r.get("violations", []):
             vid = f"{prop}/bounded:{r['label']}/{v['id']}"
-            if (vid, v.get("witness")) in seen_b:
+            if (vid, v.get("witness")) in seen_b or sum(1 for x in seen_b if x[0] == vid) >= 3:
                 continue
             seen_b.add((vid, v.get("witness")))
             f = finding_for(findings, prop, vid, v.get("witness"))
